@@ -774,6 +774,45 @@ func c12Derived(c *enumx.Ctx) {
 			}
 		}
 	}
+	// BOTH spellings in one record (success= names the outcome; res= is then a plain field like any other and stays), in
+	// both orders, and the outcome keys next to keys that merely look like them
+	for _, sv := range []kv{{"success", "yes", "success"}, {"success", "no", "fail"}} {
+		for _, rv := range []string{"7", "success", "failed", "zzq", "0", "1", "yes"} {
+			for _, other := range []string{"res", "result_code", "resp", "successful", "ress"} {
+				for order := 0; order < 2; order++ {
+					for _, typ := range []uint16{1300, 1400, 1307} {
+						if !c.Mine() {
+							continue
+						}
+						a, b := sv.k+"="+sv.v, other+"="+rv
+						if order == 1 {
+							a, b = b, a
+						}
+						raw := hdr + fmt.Sprintf("arch=c000003e syscall=2 %s exit=3 a0=0 %s items=0 pid=1 uid=0 exe=\"/x\"", a, b)
+						other, rv, sv := other, rv, sv
+						c.Begin(func() string { return raw })
+						c.Try("C12", func() {
+							m, _ := auparse.Parse(auparse.AuditMessageType(typ), raw)
+							d, err := m.Data()
+							if err != nil {
+								c.Report("C12 derived-data-error", fmt.Sprintf("%q: %v", raw, err), nil)
+								return
+							}
+							if d["result"] != sv.want {
+								c.Report("C12 result-normalisation", fmt.Sprintf("%q: result=%q, want %q (success= names the outcome)", raw, d["result"], sv.want), nil)
+								return
+							}
+							if got, ok := d[other]; !ok || got != rv {
+								c.Report("C12 plain-field-lost:"+other, fmt.Sprintf("%q: the plain field %s=%s is reported as (%q, present %v)", raw, other, rv, got, ok), nil)
+								return
+							}
+							c.Nontrivial()
+						})
+					}
+				}
+			}
+		}
+	}
 	c.Sample("SYSCALL ... exit=-13 => exit=EACCES ; res=failed => result=fail ; auid=4294967295 => auid=unset")
 }
 
